@@ -11,7 +11,7 @@
                                 index) establishes and every select re-establishes. *)
 From Coq Require Import ZArith NArith List Bool Lia.
 From SA Require Import Base.Prelude Kernels.Linear Kernels.Linear_Proofs
-  Index.Index Index.Index_Spec Index.Index_Proofs2 Query.Phrase Query.Range
+  Codec.Codec Index.Index Index.Index_Spec Index.Index_Proofs2 Query.Phrase Query.Range
   Score.BM25 Score.BM25_Walk Score.Score View.View View.View_Proofs.
 Import ListNotations.
 Local Open Scope nat_scope.
@@ -446,14 +446,27 @@ Proof.
   exact (view_len_ok docs bs ix avoid keys v Hwf E Ev).
 Qed.
 
-(* the shape predicate is not vacuous-by-accident: without it the un-selected phrase path can hand the
-   kernel a tf vector LONGER than doc_lens (a hand-made array whose max_doc_id exceeds its rows) *)
-Definition bad_sarray : sarray :=
-  {| a_terms := [1%N; 2%N];
-     a_posns := {| p_handle := HBase []; p_max_doc_id := 2%N; p_df_root := [] |};
-     a_rows := [0%N]; a_subset := false; a_lens := [3%N]; a_total := 3%N; a_n := 1%N; a_avoid_copies := false |}.
-Example bad_sarray_not_ok : sarr_len_okb bad_sarray = false.
-Proof. reflexivity. Qed.
+(* the shape predicate is needed: the model of a view passes doc_lens through untouched, so an array whose
+   doc_lens is shorter than its rows (here: a correct 2-document index with a_lens cut to one entry)
+   violates sarr_len_okb, still answers v_score_args, and the kernel then reads past doc_lens *)
+Definition short_lens_array (ix : sindex) : sarray :=
+  let a := of_index ix false in
+  {| a_terms := a_terms a; a_posns := a_posns a; a_rows := a_rows a; a_subset := false;
+     a_lens := firstn 1 (a_lens a); a_total := a_total a; a_n := a_n a; a_avoid_copies := false |}.
+Definition short_lens_run :=
+  match index false 2 [[1%N; 2%N]; [1%N; 2%N]] with
+  | AOk ix =>
+      match v_score_args (short_lens_array ix) [1%N; 2%N] None None with
+      | AOk (tfs, dfs, dls, total, n) =>
+          Some (sarr_len_okb (short_lens_array ix), tfs, dls,
+                bm25_score_walk (map f32_of_Z (map Z.of_N tfs)) (map f32_of_Z (map Z.of_N dls))
+                                (f32_of_Z 2) (f32_of_Z 1) (f32_of_Z 1) (f32_of_Z 1))
+      | _ => None
+      end
+  | _ => None
+  end.
+Example short_lens_faults : short_lens_run = Some (false, [1%N; 1%N], [2%N], Fault Rd 1 1%N).
+Proof. vm_compute. reflexivity. Qed.
 
 Print Assumptions bm25_walk_safe.
 Print Assumptions bm25_walk_short_faults.
